@@ -86,6 +86,50 @@ fn main() {
         }
         return;
     }
+    if prop == "debug-action" {
+        // iwe-verif debug-action <replay.json> <line> <kind-suffix>: apply the action and print the changed notes
+        let v: serde_json::Value = serde_json::from_str(&std::fs::read_to_string(&args[2]).unwrap()).unwrap();
+        let lib: Vec<(String, String)> = v["library"].as_array().unwrap().iter().map(|p| (p[0].as_str().unwrap().to_string(), p[1].as_str().unwrap().to_string())).collect();
+        let ext = v["ext"].as_str().unwrap_or("");
+        let key = v["key"].as_str().unwrap_or("a");
+        let l0 = act::formatted(&lib, ext).unwrap();
+        let server = act::server(&l0, ext, false);
+        let line: u32 = args[3].parse().unwrap();
+        println!("line {}: {:?}", line, l0[key].lines().nth(line as usize));
+        for (kind, id, res) in act::actions_at(&server, key, line).unwrap() {
+            if kind.ends_with(&args[4]) {
+                println!("== {} node {}", kind, id);
+                for c in res.unwrap() {
+                    if let act::Change::Update(k, t) = c {
+                        println!("-- update {}\n{}", k, t);
+                    } else {
+                        println!("-- {:?}", c);
+                    }
+                }
+            }
+        }
+        return;
+    }
+    if prop == "debug-events" {
+        // iwe-verif debug-events <file.md> <model-binary>: the first event at which Spec/Events.lean rejects the stream
+        let text = std::fs::read_to_string(&args[2]).unwrap();
+        let mut m = model::Model::spawn(&args[3]);
+        let all = events::events_sexp(&text);
+        let evs = dump::children(&all);
+        for k in 1..evs.len() {
+            let req = format!("(reader.read {} (events{}))", sexp::hex(&text), evs[1..=k].iter().map(|e| format!(" {}", e)).collect::<String>());
+            let reply = m.call(&req);
+            if dump::children(&reply).get(1) == Some(&"no") {
+                println!("rejected at event {}: {}", k, evs[k]);
+                for e in &evs[k.saturating_sub(8)..=k] {
+                    println!("   {}", e.chars().take(100).collect::<String>());
+                }
+                return;
+            }
+        }
+        println!("accepted ({} events)", evs.len() - 1);
+        return;
+    }
     if prop == "debug-gen" {
         debug_gen(args[2].parse().unwrap(), u64::from_str_radix(&args[3], 16).unwrap(), args[4].parse().unwrap());
         return;
